@@ -281,10 +281,16 @@ Proof. exact (conj Rltb_irrefl (conj Rltb_trans Rltb_cotrans)). Qed.
 Example C04_nonvacuous_period : forall o sd, optimum_poling_period ex_dkz o sd (1 / 100) = AutoOk (1 / 1000).
 Proof. exact nonvacuous. Qed.
 
+(* the hypotheses of C04_collinear_dkz / C04_collinear_root are satisfiable with a NON-ZERO unpoled mismatch: dispersive index
+   n(l) = 1 + l/4, pump wavelength 1, signal wavelength 2: dkz(unpoled) = -pi/2, the closing vector never vanishes for the
+   (negative) sign the search uses, and |2 pi / dkz| = 4 is admissible for L = 10 *)
 Example C04_nonvacuous_collinear :
-  let index := fun (_ : R) (_ : vec) (_ : polarization) => 3 / 2 in
-  w_z index Ordinary Ordinary 0 0 2 1 (1, 1) (1, 1) PPOff <> 0 /\ w_z index Ordinary Ordinary 0 0 2 1 (1, 1) (1, 1) (PPOn 1 false) <> 0.
-Proof. exact nonvacuous_collinear. Qed.
+  let index := fun (l : R) (_ : vec) (_ : polarization) => 1 + l / 4 in
+  dkz_of index Type2_e_eo false (beam_new Ordinary 0 0 2 (1, 1)) (pump_new Ordinary 1 (1, 1)) PPOff = - (PI / 2) /\
+  dkz_of index Type2_e_eo false (beam_new Ordinary 0 0 2 (1, 1)) (pump_new Ordinary 1 (1, 1)) PPOff <> 0 /\
+  w_z index Ordinary Ordinary 0 0 2 1 (1, 1) (1, 1) PPOff <> 0 /\
+  (forall x, 0 < x -> w_z index Ordinary Ordinary 0 0 2 1 (1, 1) (1, 1) (PPOn x false) <> 0).
+Proof. exact nonvacuous_collinear_dispersive. Qed.
 
 Print Assumptions C04_nm_monotone.
 Print Assumptions C04_nm_monotone_iter.
